@@ -24,6 +24,7 @@ type G struct {
 	ready   func() bool // nil = runnable
 	waitsOn string
 	yielding bool
+	timers  []*Chan // one-shot timers of the select this goroutine is blocked in
 }
 
 type Sched struct {
@@ -36,6 +37,8 @@ type Sched struct {
 	pendingPanic interface{}
 	wg      sync.WaitGroup
 	chanSeq int
+	vnow    int64 // virtual time (ns): advances to a timer's deadline when it fires because nothing can run
+	idleFires int
 }
 
 func (s *Sched) nextChanID() int { s.chanSeq++; return s.chanSeq }
@@ -53,6 +56,7 @@ type Chan struct {
 	recvWait  int
 	env       string // "" | "ticker" | "done": readiness decided by the environment
 	envClosed bool
+	deadline  int64 // one-shot timers: virtual time (ns) at which it fires
 }
 
 func newSched(in *Interp) *Sched {
@@ -117,12 +121,73 @@ func (s *Sched) handoff(from *G) {
 		return
 	}
 	next := s.pick()
+	if next == nil && s.fireIdleTimer() {
+		next = s.pick()
+	}
 	if next == nil {
 		// nothing runnable: main must be blocked => deadlock, let main report it
 		s.wakeG(s.main)
 		return
 	}
 	s.wakeG(next)
+}
+
+// fireIdleTimer: nothing can run - time passes. One of the one-shot timers that blocked selects are
+// waiting on fires (which one is a decision of the exploration when there are several).
+func (s *Sched) fireIdleTimer() bool {
+	var cands []*Chan
+	for _, g := range s.gs {
+		if g.done {
+			continue
+		}
+		for _, c := range g.timers {
+			if c.env == "timer" && !c.envClosed {
+				cands = append(cands, c)
+			}
+		}
+	}
+	if len(cands) == 0 || s.idleFires >= maxIdleFires {
+		return false
+	}
+	// discrete-event time: the timer with the earliest deadline fires (ties: the exploration decides)
+	min := cands[0].deadline
+	for _, c := range cands {
+		if c.deadline < min {
+			min = c.deadline
+		}
+	}
+	var first []*Chan
+	for _, c := range cands {
+		if c.deadline == min {
+			first = append(first, c)
+		}
+	}
+	k := 0
+	if len(first) > 1 {
+		k = s.in.ex.choose(len(first), "timer")
+	}
+	first[k].envClosed = true
+	if min > s.vnow {
+		s.vnow = min
+	}
+	s.idleFires++
+	return true
+}
+
+// maxIdleFires bounds how often time may pass per path because nothing can run (periodic timers such
+// as progress loggers would otherwise keep a deadlocked path alive for ever)
+const maxIdleFires = 24
+
+// newTimerChan: a one-shot timer of duration d (ns; unknown/symbolic durations count as one second)
+func (s *Sched) newTimerChan(d Value) *Chan {
+	dl := int64(1000000000)
+	if t, ok := d.(*Term); ok && t.op == OpConst {
+		dl = int64(t.c)
+	}
+	if dl < 0 {
+		dl = 0
+	}
+	return &Chan{id: s.nextChanID(), env: "timer", deadline: s.vnow + dl}
 }
 
 func (s *Sched) wakeG(g *G) {
@@ -199,6 +264,9 @@ func (s *Sched) block(ready func() bool, what string) {
 	g.waitsOn = what
 	for {
 		next := s.pick()
+		if next == nil && s.fireIdleTimer() {
+			next = s.pick()
+		}
 		if next == nil {
 			if g == s.main {
 				g.ready = nil
@@ -226,7 +294,7 @@ func (s *Sched) block(ready func() bool, what string) {
 		}
 		if g == s.main {
 			// woken to report a deadlock
-			if len(s.runnable()) == 0 {
+			if len(s.runnable()) == 0 && !s.fireIdleTimer() {
 				g.ready = nil
 				panic(pathEnd{"deadlock", "all goroutines blocked; main waits on " + what + s.others()})
 			}
@@ -453,6 +521,9 @@ func (in *Interp) chanRecv(c *Chan, elemT types.Type) (Value, bool) {
 		}
 		if c.env == "timer" {
 			c.env = "spent"
+			if c.deadline > s.vnow {
+				s.vnow = c.deadline
+			}
 		}
 		return zero(elemT), true
 	}
@@ -515,7 +586,7 @@ func (in *Interp) selectOp(instr *ssa.Select, fr *frame) Value {
 			if x.dir == types.RecvOnly {
 				if x.c.env == "" && x.c.canRecv() {
 					r = append(r, i)
-				} else if x.c.env != "" && x.c.envClosed {
+				} else if x.c.env != "" && x.c.env != "spent" && x.c.envClosed {
 					r = append(r, i)
 				}
 			} else if x.c.canSend() {
@@ -551,27 +622,15 @@ func (in *Interp) selectOp(instr *ssa.Select, fr *frame) Value {
 			if !instr.Blocking {
 				break // default
 			}
-			// one-shot timers fire when nothing else can happen (time passes while everything is idle)
-			idle := true
-			for _, o := range s.runnable() {
-				if o != s.cur {
-					idle = false
+			// one-shot timers fire when nothing else can happen (time passes while everything is idle):
+			// the scheduler fires one of the pending timers when no goroutine can run (fireIdleTimer)
+			s.cur.timers = nil
+			for _, x := range states {
+				if x.c != nil && x.dir == types.RecvOnly && x.c.env == "timer" && !x.c.envClosed {
+					s.cur.timers = append(s.cur.timers, x.c)
 				}
 			}
-			if idle {
-				fired := false
-				for i, x := range states {
-					if x.c != nil && x.dir == types.RecvOnly && x.c.env == "timer" && !x.c.envClosed {
-						chosen = i
-						fired = true
-						x.c.env = "spent" // one-shot
-						break
-					}
-				}
-				if fired {
-					break
-				}
-			}
+			me := s.cur
 			// block until some non-env case becomes ready
 			for i := range states {
 				if states[i].c != nil && states[i].dir == types.RecvOnly {
@@ -579,6 +638,7 @@ func (in *Interp) selectOp(instr *ssa.Select, fr *frame) Value {
 				}
 			}
 			s.block(func() bool { return len(readyNow()) > 0 }, "select")
+			me.timers = nil
 			for i := range states {
 				if states[i].c != nil && states[i].dir == types.RecvOnly {
 					states[i].c.recvWait--
